@@ -15,7 +15,7 @@ import traceback
 import z3
 
 from mirsym import mir
-from mirsym.core import Adt, Cell, Opaque, Panic, PVec, Ref, SB, Tup, Unsupported, dv, zand, zor, znot, zbool
+from mirsym.core import Adt, Cell, Opaque, Panic, PVec, Ref, SB, SymStr, StrSort, Tup, Unsupported, dv, zand, zor, znot, zbool
 from mirsym.models import BASE_MODELS, It, sb_bytes
 from mirsym.runner import Check, Inconclusive, replay, replay_bin
 from props import httpmodel, routerlib as RL, strmodel, vermodel
@@ -268,6 +268,50 @@ def part_b(sub, ex, N, route):
         prove_under_b(sub, bs, list(pc), res, N, route)
 
 
+def part_d(sub, ex, route):
+    """lookup_route on a raw path of ANY length that the normaliser refuses (part A: the refusal contract): a 400, never a panic.
+    The path text is opaque with a symbolic byte length and symbolic character boundaries (slicing it can panic)."""
+    R = G['R']
+    tmpl = {'wild': '/{r:.*}', 'var': '/{x}', 'var2': '/{x}/{y}'}[route]
+    eps = [RL.Endpoint(0, 'GET', tmpl, 'All')]
+    text = SymStr(z3.Const('long_request_path', StrSort))
+    refuse = [m for m in RL.ROUTER_MODELS if 'input_path_to_segments' in m[0]]
+    def h(ex):
+        rc, rej, msg = R.build(ex, eps, [0])
+        if rej is not None: raise Unsupported('registration failed: ' + str(msg))
+        RL.Ctx.cur_segments = None
+        ip = Adt('InputPath', 0, {None: [Cell(text)]})
+        res = ex.call_fn(R.F_lookup, [Ref(rc), Ref(Cell(Opaque('method', 'GET'))), ip, ex.none()])
+        return ('err', httpmodel.status_of(ex, ex.payload(res))) if res.discr == 1 else ('ok', None)
+    ex.models = refuse + ex.models
+    try:
+        outs = ex.explore(h, [])
+    finally:
+        ex.models = ex.models[len(refuse):]
+    sub.paths += len(outs)
+    def native_long():
+        tails = [b'/..', b'/%ff']
+        raws = [b'/' + b'a' * k + '\u00e9\u20ac'.encode() * 3 + b'a' * pad + t for k in (13, 29, 30, 61, 62, 93, 94, 125, 126, 253, 254, 509, 1021) for pad in (0, 40) for t in tails]
+        cases = [{'op': 'path', 'raw': list(r), 'route': route} for r in raws]
+        res = [adapt(r, route) for r in replay(cases)]
+        bad = [(bytes(c['raw'])[:20] + b'...', len(c['raw']), n_.get('status')) for c, n_ in zip(cases, res) if n_.get('status') != 400]
+        return cases, bad
+    for pc, (kind, res) in outs:
+        if kind != 'ok':
+            m = sub.prove(f'D/{route}/refused-path-of-any-length/no-panic', pc, z3.BoolVal(True))
+            if m is not None:
+                cases, bad = native_long()
+                sub.counterexample(f'lookup_route panics on a refused path of some length ({res}); native: refused paths of {len(cases)} lengths with multi-byte characters, '
+                                   f'not answered 400: {bad[:4]}', cases[0] if not bad else next(c for c in cases if len(c['raw']) == bad[0][1]), bool(bad), role='long-refused-path')
+            continue
+        ok = res[0] == 'err' and res[1] == 400
+        m = sub.prove(f'D/{route}/refused-path-of-any-length/is-400', pc, z3.BoolVal(not ok))
+        if m is not None:
+            cases, bad = native_long()
+            sub.counterexample(f'a refused path is answered {res}; native: {bad[:4]}', cases[0], bool(bad), role='long-refused-path')
+    if not outs: raise Inconclusive('vacuity: part D explored no path')
+
+
 def prove_under_b(sub, bs, pc, got, N, route, depth=0):
     d = Decider(pc)
     if depth and not d.feasible(): return
@@ -319,6 +363,9 @@ def _worker(task):
         if task[0] == 'A':
             ok, err = part_a(sub, ex, task[1])
             sub.samples.append({'part': 'A', 'N': task[1], 'paths': sub.paths, 'ok_paths': ok, 'err_paths': err})
+        elif task[0] == 'D':
+            part_d(sub, ex, task[1])
+            sub.samples.append({'part': 'D', 'route': task[1], 'paths': sub.paths})
         else:
             part_b(sub, ex, task[1], task[2])
             sub.samples.append({'part': 'B', 'N': task[1], 'route': task[2], 'paths': sub.paths})
@@ -362,9 +409,10 @@ def run(tier, replay_file=None):
     NA = 8 if tier == "quick" else 10
     NB = 6 if tier == "quick" else 8
     if os.environ.get('VERIF_C03_NA'): NA = int(os.environ['VERIF_C03_NA'])
-    tasks = [('A', n) for n in range(NA, -1, -1)] + [('B', n, r) for n in range(NB, -1, -1) for r in ('wild', 'var', 'var2')]
+    tasks = [('A', n) for n in range(NA, -1, -1)] + [('B', n, r) for n in range(NB, -1, -1) for r in ('wild', 'var', 'var2')] + [('D', r) for r in ('wild', 'var')]
     chk.bounds = {'raw_path_bytes_part_A': f'every length 0..{NA}, every byte 0x01..0xFF (valid UTF-8 as a whole)',
                   'raw_path_bytes_part_B': f'every length 0..{NB}; routes /{{r:.*}}, /{{x}}, /{{x}}/{{y}}',
+                  'raw_path_part_D': 'a refused path of any byte length (opaque text, symbolic length and character boundaries) through lookup_route',
                   'outside': 'longer paths; what hyper / http::Uri accept as a request target'}
     chk.assumptions = ['the raw path is a &str (valid UTF-8) without NUL',
                        'percent_encoding::percent_decode_str(..).decode_utf8() decodes %XY (hex, either case) and validates UTF-8 '
@@ -389,7 +437,7 @@ def run(tier, replay_file=None):
     if incon:
         rc = chk.finish('inconclusive run')
         if rc == 1:
-            print(f'note: {len(incon)} task(s) inconclusive as well; first: {incon[0][:300]}')
+            print(f'note: {len(incon)} task(s) inconclusive as well; first: {incon[0][-1200:]}')
             return 1
-        raise Inconclusive(f'{len(incon)} task(s) inconclusive; first: {incon[0]}')
+        raise Inconclusive(f'{len(incon)} task(s) inconclusive; first: {incon[0][-1200:]}')
     return chk.finish('one obligation per (raw length, execution path of the real code, reference case); non-trivial = distinct name')
